@@ -161,7 +161,7 @@ func (g *progGen) expr(t ty, depth int, sc *scope) MalType {
 			pv = ls(params...)
 		}
 		f := ls(sy("fn"), pv, g.expr(t, depth-1, sc2))
-		return List{Val: append([]MalType{f}, args...)}
+		return g.viaApply(f, args)
 	case 5:
 		// closure bound with let, capturing a variable, called later (maybe twice); the name is unique per
 		// nesting level: with one fixed name an inner body that calls the OUTER closure would, at run time,
@@ -189,7 +189,7 @@ func (g *progGen) expr(t ty, depth int, sc *scope) MalType {
 			for i := 0; i < f.arity; i++ {
 				args = append(args, g.expr(tInt, depth-1, sc))
 			}
-			return List{Val: append([]MalType{sy(f.name)}, args...)}
+			return g.viaApply(sy(f.name), args)
 		}
 	case 7:
 		if t != tBool {
@@ -198,6 +198,9 @@ func (g *progGen) expr(t ty, depth int, sc *scope) MalType {
 	}
 	switch t {
 	case tInt:
+		if r.chance(1, 9) {
+			return g.nestedLit(depth, sc)
+		}
 		switch r.intn(8) {
 		case 0, 1, 2:
 			return call1(r.pick([]string{"+", "-", "*"}), g.expr(tInt, depth-1, sc), g.expr(tInt, depth-1, sc))
@@ -246,6 +249,61 @@ func (g *progGen) expr(t ty, depth int, sc *scope) MalType {
 			return g.seqLit(depth, sc)
 		}
 	}
+}
+
+// viaApply: a call `(f a…)`, or (1 in 4) the same call routed through the `apply` builtin — `(apply f [a…])` /
+// `(apply f a1 (list a2…))` — i.e. through function application outside the evaluation loop
+func (g *progGen) viaApply(f MalType, args []MalType) MalType {
+	if !g.r.chance(1, 4) {
+		return List{Val: append([]MalType{f}, args...)}
+	}
+	k := 0
+	if len(args) > 0 {
+		k = g.r.intn(len(args) + 1)
+	}
+	var last MalType = vc(args[k:]...)
+	if g.r.chance(1, 2) {
+		last = List{Val: append([]MalType{sy("list")}, args[k:]...)}
+	}
+	out := append([]MalType{sy("apply"), f}, args[:k]...)
+	return List{Val: append(out, last)}
+}
+
+var litKeys = []string{"\u029ek", "\u029ea", "s"}
+
+// nestedLit: an int expression buried in nested vector / hash-map LITERALS (evaluated element-wise by
+// eval_ast) and extracted again; a map literal has ONE entry: the evaluation order of a map literal's values is
+// Go's map order, which shows in the Stepper's callback sequence and — when a value fails — in the poll count
+func (g *progGen) nestedLit(depth int, sc *scope) MalType {
+	var e MalType = g.expr(tInt, depth-2, sc)
+	var path []MalType
+	for i, n := 0, 1+g.r.intn(3); i < n; i++ {
+		if g.r.chance(1, 2) {
+			k := g.r.pick(litKeys)
+			m := map[string]MalType{k: e}
+			e = HashMap{Val: m}
+			path = append([]MalType{k}, path...)
+		} else {
+			items := []MalType{}
+			for j, pre := 0, g.r.intn(3); j < pre; j++ {
+				items = append(items, g.intLit())
+			}
+			idx := len(items)
+			items = append(items, e)
+			if g.r.chance(1, 3) {
+				items = append(items, g.intLit())
+			}
+			e = vc(items...)
+			path = append([]MalType{idx}, path...)
+		}
+	}
+	if len(path) == 1 {
+		if _, ok := path[0].(int); ok {
+			return call1("nth", e, path[0])
+		}
+		return call1("get", e, path[0])
+	}
+	return call1("get-in", e, vc(path...))
 }
 
 func (g *progGen) seqLit(depth int, sc *scope) MalType {
@@ -345,7 +403,14 @@ func (g *progGen) program(depth int) (MalType, []string) {
 			names = append(names, "ga")
 		}
 		inner := ls(sy("def"), sy(target), g.expr(tInt, 2, sc))
-		switch r.intn(4) {
+		switch r.intn(6) {
+		case 4:
+			// the same thunk applied through the `apply` builtin (function application outside the evaluation loop)
+			forms = append(forms, ls(sy("def"), sy("thunk"), ls(sy("fn"), vc(), inner, call1("trace!", sy(target)))),
+				call1("apply", sy("thunk"), []MalType{vc(), ls(sy("list"))}[r.intn(2)]))
+		case 5:
+			forms = append(forms, ls(sy("let"), vc(sy(target), g.intLit()),
+				call1("apply", ls(sy("fn"), vc(), inner), vc()), call1("trace!", sy(target))))
 		case 0:
 			forms = append(forms, ls(sy("def"), sy("thunk"), ls(sy("fn"), vc(), inner, call1("trace!", sy(target)))), ls(sy("thunk")))
 		case 1:
